@@ -415,6 +415,22 @@ _add('C15', 'DeeprobModel.Props.C15Calculus', 'Deeprob.Flows.Calc', ['realExpLog
      'logit_backward_ldj_is_logabsdet', 'logit_forward_ldj_is_logabsdet', 'bn1d_backward_ldj_is_logabsdet', 'bn1d_forward_ldj_is_logabsdet', 'bn2d_backward_ldj_is_logabsdet',
      'bn2d_forward_ldj_is_logabsdet', 'coupling_backward_ldj_is_logabsdet', 'coupling_forward_ldj_is_logabsdet', 'coupling_additive_ldj_is_logabsdet',
      'maf_backward_ldj_is_logabsdet', 'maf_forward_ldj_is_logabsdet', 'mafLoop_differentiable', 'permutation_ldj_is_logabsdet', 'compose_ldj_is_logabsdet'], [])
+# round 5: the probabilistic facts behind the sampling checks: Hoeffding + union bound in exactly the harness's form, and the Gumbel-max
+# identity for any number of children (first-maximum tie-breaking as coded), which discharges `hGumbelMax_trusted` over the reals
+_SF = ['hoeffding_two_sided', 'two_exp_hoeffdingEps', 'hoeffding_harness_single', 'union_bound', 'hoeffding_family', 'hoeffding_empirical_frequencies',
+       'hoeffdingEps_harness_value', 'integral_gumbelKernel', 'gumbel_isProbabilityMeasure', 'gumbel_Iic', 'gumbel_win_core', 'gumbel_argmax_first', 'gumbel_max',
+       'gumbel_argmax_ae_unique', 'gumbel_max_categorical', 'gumbel_max_law', 'gumbel_max_indep', 'gumbelMaxIdentity_real', 'e2e_sum_sample_branch_real',
+       'e2e_sum_sample_exact_real', 'expLog_rat_empty']
+for _p in ('C07', 'C16'):
+    _add(_p, 'DeeprobModel.Props.SamplingFacts', 'Deeprob.SamplingFacts', _SF, [])
+# round 5 (translator wave 5, part 3): the loops of topological_order / topological_order_layered / bfs / dfs_post_order (node.py)
+_S5T = ['topoInit_as_coded', 'layeredInit_as_coded', 'topoStep_as_coded', 'topoRun_sim', 'kahnLoop_eq_run', 'topoRun_counts', 'layeredStep_as_coded', 'genLayers_eq',
+        'bfsStep_as_coded', 'bfsRun_inv', 'dfsStep_as_coded']
+_E5T = ['e2e_topo_eq', 'e2e_topo', 'e2e_topo_queue_empty', 'e2e_topo_sound', 'e2e_topo_mpe', 'e2e_layers_eq', 'e2e_layers', 'e2e_bfs']
+_F5T = ['node.topological_order.loop', 'node.topological_order_layered.loop', 'node.bfs.loop', 'node.dfs_post_order.loop']
+for _p in ('C08', 'C06', 'C09'):
+    _add(_p, _O + 'Struct5Topo', 'Deeprob.Oblig.Struct5T', _S5T, _F5T)
+    _add(_p, 'DeeprobModel.Props.E2ETopo', 'Deeprob.E2ETopo', _E5T, [])
 # round 5: the Gaussian leaf (density as SciPy evaluates it, normalisation, mode, raw moments of every order as integrals)
 _GT = 'Deeprob.GaussTheory'
 _add('C01', 'DeeprobModel.Props.GaussTheory', _GT, ['gauss_exp_logpdf', 'gauss_integral_one', 'gaussPdf_pos'], [])
